@@ -597,7 +597,10 @@ BystanderForksObs(s, T0, T1, rp) ==
       tgt == IF s.kind = "rename" THEN Resolve(rp, pr.items, Val(s.newname))
              ELSE IF s.kind \in {"move", "alias"} THEN rp \o DecPath(Clean(pn.items)) \o <<Base(p)>> ELSE p
       named == {p, tgt}
-      namedSides == named \cup UNION {{IncOf(x), RsrcOf(x), InfoOf(x)} : x \in named}
+      ns0 == named \cup UNION {{IncOf(x), RsrcOf(x), InfoOf(x)} : x \in named}
+      (* (a side-file NAME of a named entry that is itself an alias leads to the file it points to: the statement is
+         silent about side files addressed as objects, the real behaviour - writing through that alias - is accepted) *)
+      namedSides == ns0 \cup {Follow(T0, y, 3) : y \in {z \in ns0 : Has(T0, z) /\ T0[z].k = "link" /\ StatErr(T0, z) = "ok"}}
   IN (pr.st = "ok" /\ pn.st = "ok" /\ Len(p) > Len(rp))
      => \A q \in DOMAIN T0 :
           (T0[q].k \in {"file", "dir"} /\ Len(q) > Len(rp) /\ ~SideName(Base(q)) /\ q \notin named /\ ~IsPrefix(p, q) /\ ~IsPrefix(tgt, q)
